@@ -28,7 +28,7 @@ var purityExprs = []string{
 	"concat((//*)[2], 'x')", "contains((//*)[2], '1')", "starts-with((*)[1], '1')", "ends-with((//*)[2], '1')", "substring((//*)[2], 1)",
 	"substring-before((//*)[2], 'x')", "substring-after((//*/*)[1], '1')", "translate((//*)[2], '1', 'x')", "lower-case((//*)[2])", "name((//*)[2])",
 	"local-name((*)[1])", "namespace-uri((//*)[2])", "not((//*)[2])", "floor((//*)[1])", "ceiling((*)[1])", "round((//*)[2])", "string-join((//*)[2], ',')",
-	"reverse((//*)[2])", "matches((//*)[2], '1')", "replace((//*)[2], '1', 'x')", "substring-before(//*/*[position() < 3], '1')", "string(//*/*[position() < 3])",
+	"reverse((//*)[2])", "matches((//*)[2], '1')", "replace((//*)[2], '1', 'x')", "substring-before(//*/*[position() < 3], '1')", "substring-after(//*/*[position() < 3], '')", "substring-after(//*/*[position() < 3], 'x')", "string(//*/*[position() < 3])",
 	"name(*)", "local-name(//a)", "namespace-uri(*)", "//*[name(..) = 'a']", "//*[local-name(*) = 'a']", "//*[namespace-uri(..) = '']",
 	"matches('1', string(a))", "matches(., string(a))", "replace('1x1', a, 'y')", "//*[matches('1', string(.))]", "//*[matches(., '1')]/a", "//*[a][last()]/a", "//*[@a][last()]",
 	"//*[count(a) = 1][last()]", "(//*)[last()]/a", "*[last()][a]", "//a[last()][. = '1']", "*[@a][last()]", "a[. = '1'][last()]",
